@@ -17,8 +17,66 @@ func init() {
 	})
 }
 
+// c01ForwardLabel: a forwarded pack is labelled with the SOURCE physical channel of its messages' positions.
+func c01ForwardLabel(w *World, r *Report) {
+	hp := w.Func(pkgReader, "replicateChannelHandler", "handlePack")
+	if hp == nil {
+		r.Undecided("C01-R2", "handlePack | forwarded pack label", 0, "anchor not found")
+		return
+	}
+	n := 0
+	eachInstr(hp, func(in ssa.Instruction) {
+		c, ok := in.(*ssa.Call)
+		if !ok || callSym(c.Common()) != (sym{pkgAPI, "", "GetReplicateMsg"}) {
+			return
+		}
+		a0 := c.Call.Args[0]
+		if s, isC := constString(a0); isC && s == "" {
+			return
+		}
+		n++
+		fromSrc, fromTgt := false, ""
+		for _, x := range backSlice(a0, SliceOpts{MaxDepth: 10, ThroughArg: func(cc *ssa.CallCommon) []ssa.Value {
+			out := append([]ssa.Value{}, cc.Args...)
+			if cc.IsInvoke() {
+				out = append(out, cc.Value)
+			}
+			return out
+		}}) {
+			if cc, isCall := x.(*ssa.Call); isCall {
+				if cc.Call.IsInvoke() && cc.Call.Method.Name() == "Position" {
+					fromSrc = true
+				}
+			}
+			if strings.HasSuffix(w.accessPath(x), ".sourcePChannel") {
+				fromSrc = true
+			}
+			switch y := x.(type) {
+			case *ssa.FieldAddr:
+				if typeIs(y.X.Type(), pkgModel, "TargetCollectionInfo") {
+					fromTgt = "TargetCollectionInfo." + fieldName(y.X.Type(), y.Field)
+				}
+			case *ssa.Field:
+				if typeIs(y.X.Type(), pkgModel, "TargetCollectionInfo") {
+					fromTgt = "TargetCollectionInfo." + fieldName(y.X.Type(), y.Field)
+				}
+			}
+			if strings.HasSuffix(w.accessPath(x), ".targetPChannel") {
+				fromTgt = "targetPChannel"
+			}
+		}
+		r.Check(fromSrc && fromTgt == "", "C01-R2", fmt.Sprintf("(*replicateChannelHandler).handlePack | forwarded pack label #%d", n), c.Pos(), "<- physical channel of the message's source position", "the forwarded pack is labelled with "+fromTgt+" (a downstream channel) instead of the source channel of its stream: the writer attributes its checkpoint to the wrong source channel")
+	})
+	if n == 0 {
+		r.Fail("C01-R2", "(*replicateChannelHandler).handlePack | forwarded pack label", hp.Pos(), "no labelled api.GetReplicateMsg call found on the forward path")
+	}
+}
+
 func runC01(w *World, r *Report) {
 	r.Rule("C01-R1", "synchronous single-consumer path", "stream receive -> innerHandleReplicateMsg -> handlePack -> SendTargetMsg are plain calls (no go / pool submit inside them); forwardPackChan and generatePackChan are received only inside startReadChannel's goroutine (and GreedyConsumeChan called from it); each GetStreamChan result has one receive site", 6)
+	defer c01ForwardLabel(w, r)
+	// tick-only packs carry the stream's checkpoint position: the positions of an output pack are the pack's own copies
+	defer r.importRules(runC02, "C01-", map[string]bool{"C02-R2": true})
 	r.Rule("C01-R2", "attribution", "innerHandleReplicateMsg copies CollectionID, CollectionName, PChannelName, TaskID from its input message to the pack it enqueues; the stream loop builds its input with its own sourceInfo.PChannel, targetInfo.CollectionName, collectionID and taskID", 8)
 	r.Rule("C01-R3", "payload write-whitelist", "stores into fields of messages that were read from a pack (any function of core/reader) touch only CollectionID, PartitionID, PartitionIDs, ShardName, BeginTimestamp, EndTimestamp, Timestamps, MsgPosition", 20)
 	r.Rule("C01-R4", "append at most once, only what was read", "no path through one iteration of the message loop passes two appends; the appended value is the range element or copyDropTypeMsg of it", 3)
